@@ -332,6 +332,10 @@ func newC29World() *c29world {
 			b.Txns = append(b.Txns, c29Txn(i, ts))
 		}
 		b.MagicBlock = mb
+		stripMBHash := strings.HasSuffix(name, "-nohash")
+		if stripMBHash {
+			b.MagicBlock.Hash = "" // as built by NewMagicBlock() without setting Hash
+		}
 		tk, _ := signer(w.miners[1]).Sign(b.PrevHash)
 		b.PrevBlockVerificationTickets = []*block.VerificationTicket{{VerifierID: w.ids[1], Signature: tk}}
 		b.HashBlock()
@@ -342,6 +346,9 @@ func newC29World() *c29world {
 		b.Signature = sg
 		vt, _ := signer(w.miners[1]).Sign(b.Hash)
 		b.VerificationTickets = []*block.VerificationTicket{{VerifierID: w.ids[1], Signature: vt}}
+		if stripMBHash {
+			b.MagicBlock.Hash = "" // HashBlock fills it in memory; the wire form omits it
+		}
 		rb, err := decodeBlock(encodeBlock(b))
 		if err != nil {
 			ev.Fatal("base block %s does not decode: %v", name, err)
@@ -351,6 +358,11 @@ func newC29World() *c29world {
 	mk("txns", 3, nil)
 	mk("magic", 2, c29MagicBlock())
 	mk("empty", 0, nil)
+	mk("magic-nohash", 2, c29MagicBlock())
+	bare := block.NewMagicBlock()
+	bare.Miners = node.NewPool(node.NodeTypeMiner)
+	bare.Sharders = node.NewPool(node.NodeTypeSharder)
+	mk("baremagic-nohash", 1, bare)
 	return w
 }
 
@@ -406,8 +418,39 @@ var c29Structural = []structural{
 		b.MagicBlock = c29MagicBlock()
 		return true
 	}},
+	{"MagicBlock:add-without-hash", "magic-block", func(b *block.Block, w *c29world) bool {
+		if b.MagicBlock != nil {
+			return false
+		}
+		b.MagicBlock = c29MagicBlock()
+		b.MagicBlock.Hash = ""
+		return true
+	}},
+	{"MagicBlock:add-bare-without-hash", "magic-block", func(b *block.Block, w *c29world) bool {
+		if b.MagicBlock != nil {
+			return false
+		}
+		b.MagicBlock = block.NewMagicBlock()
+		b.MagicBlock.Miners = node.NewPool(node.NodeTypeMiner)
+		b.MagicBlock.Sharders = node.NewPool(node.NodeTypeSharder)
+		return true
+	}},
+	{"MagicBlock:replace-by-other-without-hash", "magic-block", func(b *block.Block, w *c29world) bool {
+		if b.MagicBlock == nil || b.MagicBlock.Hash != "" {
+			return false
+		}
+		mb := c29MagicBlock()
+		mb.Hash = ""
+		mb.MagicBlockNumber += 1
+		mb.StartingRound += 100
+		b.MagicBlock = mb
+		return true
+	}},
 	{"MagicBlock.Miners:remove-node", "magic-block", func(b *block.Block, w *c29world) bool {
 		if b.MagicBlock == nil {
+			return false
+		}
+		if len(b.MagicBlock.Miners.NodesMap) == 0 {
 			return false
 		}
 		delete(b.MagicBlock.Miners.NodesMap, firstKey(b.MagicBlock.Miners.NodesMap))
@@ -417,6 +460,9 @@ var c29Structural = []structural{
 		if b.MagicBlock == nil {
 			return false
 		}
+		if len(b.MagicBlock.Sharders.NodesMap) == 0 {
+			return false
+		}
 		delete(b.MagicBlock.Sharders.NodesMap, firstKey(b.MagicBlock.Sharders.NodesMap))
 		return true
 	}},
@@ -424,11 +470,17 @@ var c29Structural = []structural{
 		if b.MagicBlock == nil {
 			return false
 		}
+		if len(b.MagicBlock.Mpks.Mpks) == 0 {
+			return false
+		}
 		delete(b.MagicBlock.Mpks.Mpks, firstKey(b.MagicBlock.Mpks.Mpks))
 		return true
 	}},
 	{"MagicBlock.Mpks:drop-coefficient", "magic-block", func(b *block.Block, w *c29world) bool {
 		if b.MagicBlock == nil {
+			return false
+		}
+		if len(b.MagicBlock.Mpks.Mpks) == 0 {
 			return false
 		}
 		m := b.MagicBlock.Mpks.Mpks[firstKey(b.MagicBlock.Mpks.Mpks)]
@@ -439,11 +491,17 @@ var c29Structural = []structural{
 		if b.MagicBlock == nil {
 			return false
 		}
+		if len(b.MagicBlock.ShareOrSigns.Shares) == 0 {
+			return false
+		}
 		delete(b.MagicBlock.ShareOrSigns.Shares, firstKey(b.MagicBlock.ShareOrSigns.Shares))
 		return true
 	}},
 	{"MagicBlock.ShareOrSigns:remove-share", "magic-block", func(b *block.Block, w *c29world) bool {
 		if b.MagicBlock == nil {
+			return false
+		}
+		if len(b.MagicBlock.ShareOrSigns.Shares) == 0 {
 			return false
 		}
 		s := b.MagicBlock.ShareOrSigns.Shares[firstKey(b.MagicBlock.ShareOrSigns.Shares)]
@@ -471,6 +529,9 @@ func rederive(b *block.Block, path string) bool {
 		return true
 	}
 	if strings.HasPrefix(path, "MagicBlock") && path != "MagicBlock.Hash" && b.MagicBlock != nil {
+		if b.MagicBlock.Hash == "" {
+			return false // the encoder omits the magic block hash: the plain variant already is the consistent one
+		}
 		b.MagicBlock.Hash = b.MagicBlock.GetHash()
 		return true
 	}
@@ -482,18 +543,22 @@ func c29() {
 	w := newC29World()
 	ctx := context.Background()
 	run.Rule = "3 base blocks; every wire-visible leaf (reflect walk) x its kind's alphabet + structural tamperings, x {plain, consistent}; every case evaluated on the block a node receives (JSON -> FromJSON -> ComputeHash/Validate), plus hash re-computed-by-attacker and re-signed-by-generator variants for the Validate clauses. distinct = (base, normalised path, variant, result class)"
-	run.Bounds["bases"] = []string{"txns(3 txns)", "magic(2 txns + magic block)", "empty"}
+	run.Bounds["bases"] = []string{"txns(3 txns)", "magic(2 txns + magic block)", "empty", "magic-nohash(2 txns + magic block whose Hash is empty on the wire)", "baremagic-nohash(1 txn + NewMagicBlock() with empty pools, Hash empty)"}
 	run.Bounds["variants"] = []string{"plain", "consistent", "rehash", "resigned(duplicates)"}
 
 	notHashed := map[string]bool{}
 	classified := map[string]string{}
-	for _, name := range []string{"txns", "magic", "empty"} {
+	for _, name := range []string{"txns", "magic", "empty", "magic-nohash", "baremagic-nohash"} {
 		wire0 := w.wires[name]
 		orig, err := decodeBlock(wire0)
 		if err != nil {
 			ev.Fatal("decode base: %v", err)
 		}
+		if strings.HasSuffix(name, "-nohash") && (orig.MagicBlock == nil || orig.MagicBlock.Hash != "") {
+			ev.Fatal("base %s: received magic block should carry an empty hash", name)
+		}
 		h0 := orig.ComputeHash()
+		canon0 := string(encodeBlock(orig)) // as a receiver holds it after hashing (an empty MagicBlock.Hash may have been filled in)
 		// determinism / function of contents
 		for i := 0; i < 3; i++ {
 			again, _ := decodeBlock(wire0)
@@ -527,8 +592,9 @@ func c29() {
 				run.Outcome(tag + "/rejected-at-decode")
 				return
 			}
-			h1 := recv.ComputeHash() // (fills an empty MagicBlock.Hash, as the real code does)
-			if string(encodeBlock(recv)) == string(wire0) {
+			emptyMBHash := recv.MagicBlock != nil && recv.MagicBlock.Hash == "" // magic block received without its hash
+			h1 := recv.ComputeHash()                                            // (fills an empty MagicBlock.Hash, as the real code does)
+			if string(encodeBlock(recv)) == canon0 {
 				run.Outcome(tag + "/normalised-to-original")
 				return
 			}
@@ -566,7 +632,7 @@ func c29() {
 				}
 			}
 			run.Outcome(tag + "/hash-unchanged/" + errClass(verr))
-			if variant == "plain" && strings.HasPrefix(path, "MagicBlock") && path != "MagicBlock:remove" && path != "MagicBlock:add" {
+			if variant == "plain" && !emptyMBHash && recv.MagicBlock != nil && strings.HasPrefix(path, "MagicBlock") && path != "MagicBlock:add" {
 				// content of the magic block altered, carried MagicBlock.Hash string unchanged
 				run.Violation("C29:getHashData:magic-block-content-under-carried-hash",
 					fmt.Sprintf("%s: %s altered; ComputeHash hashes the carried MagicBlock.Hash string, which nothing compares with MagicBlock.GetHash(): block hash unchanged, Validate: %v", name, path, verr), rep)
@@ -576,8 +642,12 @@ func c29() {
 				norm = "MagicBlock.Mpks.Mpks[].Mpk[]" // same content: the MPK coefficients
 			}
 			notHashed[norm] = true
+			note := ""
+			if emptyMBHash {
+				note = " [magic block carried with Hash==\"\"]"
+			}
 			run.Violation("C29:getHashData:"+norm+"-not-hashed",
-				fmt.Sprintf("%s: %s (%s, listed as '%s') altered in the received block, ComputeHash unchanged (%s), Validate: %v", name, path, variant, class, h0[:12], verr), rep)
+				fmt.Sprintf("%s: %s (%s, listed as '%s') altered in the received block%s, ComputeHash unchanged (%s), Validate: %v", name, path, variant, class, note, h0[:12], verr), rep)
 		}
 
 		proto, _ := decodeBlock(wire0)
